@@ -87,7 +87,9 @@ type c07fault struct {
 
 func runC07(rc *sim.RunCtx) {
 	t := rc.T
-	seqVal := t.Bool(1, 2)
+	// validation runs sequentially here: with concurrent validators the numbering of collaborator calls would not be
+	// a function of the tape (concurrent validation is exercised by the other checks and by C17)
+	seqVal := true
 	profile := []string{"core", "core", "presence"}[t.Choose(3)]
 	si, err := world.LoadSchema()
 	if err != nil {
@@ -365,7 +367,7 @@ func init() {
 		ID: "C07", Level: "fault_enumeration", Run: runC07,
 		Rule: "per run: a generated history (2-5 transactions, thorough up to 9) is executed fault-free (reference) with a counting pass that numbers every collaborator call of one chosen transaction (target.Set, cache Read/ReadCh/GetKeys/Modify, schema GetSchema; cold schema index after a restart in 1/3 of runs). Then for sampled (call index, kind) pairs - always one device fault and one cache Modify fault; kinds: device reject/unreachable/lost-reply, cache error/torn write/lost ack/empty or short read, schema error, fail-stop crash + restart over the same badger directory - the history is replayed in a fresh world with that single fault, the same request is retried and the history continues. Every fault case counts as non-trivial; distinct = (kind, collaborator call).",
 		Real: append(append([]string{}, realCore...), "fault decorators sit between the real Datastore and the real cache / schema clients"), Stub: stubCore,
-		RequiredProbes: []string{"restart"},
-		QuickSeconds:   40, ThoroughSeconds: 720,
+		RequiredProbes: []string{"restart"}, MapOrderSensitive: true,
+		QuickSeconds: 40, ThoroughSeconds: 720,
 	})
 }
